@@ -271,6 +271,18 @@ fn add_new_mapping(state: &mut State, new_key: &KeyCode, m: &Mapping) -> StepRes
     };
     if should_absorb {
       events.append(&mut release_absorbed_keys(state));
+      // release_absorbed_keys may hand keys back to pass-through; consume those as well
+      let mut handed_back: Vec<KeyCode> = Vec::new();
+      state.pass_through_keys.retain(|&old_key| {
+        if m.from.contains(&old_key) || m.to.contains(&old_key) {
+          if !m.to.contains(&old_key) { events.push(Released(old_key)); } else { handed_back.push(old_key); }
+          false
+        }
+        else {
+          true
+        }
+      });
+      state.mapped_output_keys.append(&mut handed_back);
     }
   }
   
